@@ -151,27 +151,46 @@ fn run_body(prop: &str, c: &Collector, g: &mut props::Guard) -> Option<(&'static
 }
 
 fn run(prop: &str, tier: &str) -> i32 {
-    let c = Collector::new(prop, tier);
+    if tier != "quick" && tier != "thorough" {
+        out!("unknown tier {:?} (quick | thorough)", tier);
+        return 2;
+    }
+    let c: &'static Collector = Box::leak(Box::new(Collector::new(prop, tier)));
+    // Whole-run watchdog: the explicit-state searches run the subject inside this process, so a
+    // hang there would never end. At the deadline everything found so far is reported (verdict
+    // lines, replay files, evidence marked incomplete) and the process exits: 1 if a violation
+    // was seen, otherwise 2 (machinery), never 0.
+    let deadline_s: u64 = std::env::var("VERIF_RUN_TIMEOUT_S").ok().and_then(|s| s.parse().ok()).unwrap_or(if tier == "quick" { 1500 } else { 6 * 3600 });
+    {
+        let dir = verif_dir();
+        std::thread::spawn(move || {
+            std::thread::sleep(std::time::Duration::from_secs(deadline_s));
+            let msg = format!("run exceeded its wall-clock budget of {} s (a hang of the subject inside an explicit-state search, or an overloaded machine); results so far reported", deadline_s);
+            let code = report::finish(c, &dir, "incomplete run (watchdog)", &[], false, &[msg.clone()]);
+            out!("MACHINERY: {}", msg);
+            std::process::exit(if code == 1 { 1 } else { 2 });
+        });
+    }
     let mut g = props::Guard::new();
-    let (rule, assumptions, exhaustive) = match run_body(prop, &c, &mut g) {
+    let (rule, assumptions, exhaustive) = match run_body(prop, c, &mut g) {
         Some(x) => x,
         None => {
             out!("unknown property {}", prop);
             return 2;
         }
     };
-    let code = report::finish(&c, &verif_dir(), rule, &assumptions, exhaustive);
+    let mut machinery: Vec<String> = c.crashes();
+    machinery.extend(g.failures.iter().cloned());
+    let code = report::finish(c, &verif_dir(), rule, &assumptions, exhaustive, &machinery);
     isolate::cleanup_tmp();
-    for cr in c.crashes() {
-        out!("MACHINERY: {}", cr);
+    for m in &machinery {
+        out!("MACHINERY: {}", m);
     }
-    if !c.crashes().is_empty() {
-        return 2;
+    // a violation that was observed is a verdict even if some other worker ended abnormally
+    if code == 1 {
+        return 1;
     }
-    if !g.failures.is_empty() && code == 0 {
-        for f in &g.failures {
-            out!("MACHINERY: {}", f);
-        }
+    if !machinery.is_empty() {
         return 2;
     }
     code
@@ -186,9 +205,22 @@ fn main() {
         Some("run") => {
             let prop = args.get(2).cloned().unwrap_or_default();
             let tier = args.get(3).cloned().unwrap_or_else(|| "quick".to_string());
-            run(&prop, &tier)
+            // a panic of the harness itself in this process is a machinery exit, never a verdict
+            match std::panic::catch_unwind(|| run(&prop, &tier)) {
+                Ok(code) => code,
+                Err(_) => {
+                    out!("MACHINERY: the harness itself panicked in the main process");
+                    2
+                }
+            }
         }
-        Some("replay") => replay::replay(args.get(2).map(|s| s.as_str()).unwrap_or("")),
+        Some("replay") => match std::panic::catch_unwind(|| replay::replay(args.get(2).map(|s| s.as_str()).unwrap_or(""))) {
+            Ok(code) => code,
+            Err(_) => {
+                out!("MACHINERY: the harness itself panicked while replaying");
+                2
+            }
+        },
         _ => {
             out!("usage: mc run <Cxx> <quick|thorough> | mc replay <file>");
             2
